@@ -118,6 +118,37 @@ func init() {
 				}
 			})
 			if h == nil {
+				// written without encoding/binary: the value whose bits are exactly the big-endian composition
+				// of rev[0..3], zero-extended (decided at bit level, A13); the widest such value is the header
+				memo := map[ssa.Value]*sval{}
+				eachInstr(fn, func(in ssa.Instruction) {
+					v, ok := in.(ssa.Value)
+					if !ok {
+						return
+					}
+					w, _, isInt := intWidth(v.Type())
+					if !isInt || w < 32 {
+						return
+					}
+					sv, ok := symExprOver(v, rev, memo, 0)
+					if !ok {
+						return
+					}
+					for i := 0; i < w; i++ {
+						want := sbit("0")
+						if i < 32 {
+							want = sbit(fmt.Sprintf("src%d.%d", 3-i/8, i%8))
+						}
+						if sv.b[i] != want {
+							return
+						}
+					}
+					if h == nil || w >= 64 {
+						h = v
+					}
+				})
+			}
+			if h == nil {
 				r.Undecided(where, "header", fn.Pos(), "the 4-byte big-endian header read is not recognised")
 				return
 			}
